@@ -23,7 +23,11 @@ pub fn to_listing(
 
             let mut data = vec![];
             for offset in &offsets {
-                for segment in ctx.segments().values() {
+                for (segment_name, segment) in ctx.segments() {
+                    if segment_name != &offset.segment {
+                        continue;
+                    }
+
                     // The source map contains the addresses the code will run at, which is not where the segment
                     // stores its data when it has a 'pc' option. So, look at where the segment ends up.
                     let target_start =
